@@ -30,6 +30,9 @@ func Schema() *abs.Schema {
 		cols["o"+s] = abs.Col{Key: bt(t), Min: 0, Max: 1, Mut: true}
 		cols["s"+s] = abs.Col{Key: bt(t), Min: 0, Max: -1, Mut: true}
 	}
+	// sets with a bound (1 < max < unlimited), wide enough for every value of the cases
+	cols["bi"] = abs.Col{Key: bt("integer"), Min: 0, Max: 6, Mut: true}
+	cols["bs"] = abs.Col{Key: bt("string"), Min: 0, Max: 6, Mut: true}
 	cols["mis"] = abs.Col{Key: bt("integer"), Val: bt("string"), Min: 0, Max: -1, Mut: true}
 	cols["msi"] = abs.Col{Key: bt("string"), Val: bt("integer"), Min: 0, Max: -1, Mut: true}
 	cols["mss"] = abs.Col{Key: bt("string"), Val: bt("string"), Min: 0, Max: -1, Mut: true}
